@@ -429,11 +429,39 @@ def run(ck):
         if a:
             for sig, what in audit_accepted(s, f if callable(f) else (lambda **k: None)):
                 ck.fail_input(sig, what, {"expr": s, "names": NAMES})
+    # ---------- history oracle: acceptance must not depend on what was compiled earlier in the process
+    from semantiva.utils.safe_eval import ExpressionEvaluator, ExpressionError
+    hist_srcs = ["x + y", "max(x, y)", "y", "x * y - 1", "(x, y)", "abs(y) if x else y", "x < y < 2", "min(y, 1)"]
+    n_hist = 0
+    for src_ in hist_srcs:
+        for same_instance in (True, False):
+            ev1 = ExpressionEvaluator()
+            try:
+                ev1.compile(src_, {"x", "y"})          # legitimately accepted with both names declared
+            except ExpressionError:
+                continue
+            ev2 = ev1 if same_instance else ExpressionEvaluator()
+            n_hist += 1
+            try:
+                ev2.compile(src_, {"x"})               # now y is undeclared: must be rejected
+                ck.fail_input("C11:accepted-after-earlier-compile-with-larger-name-set",
+                              "expression using an undeclared name is accepted because the same text was compiled earlier with more names declared",
+                              {"expr": src_, "names": ["x"], "history": [[src_, ["x", "y"]]], "same_evaluator_instance": same_instance})
+            except ExpressionError:
+                pass
+    ck.notes["history_oracle_runs"] = n_hist
     ck.cov["trusted_base"] = TRUSTED
 
 
 def replay(obj):
     s = obj["replay"]["expr"]
+    for h_src, h_names in obj["replay"].get("history", []):
+        from semantiva.utils.safe_eval import ExpressionEvaluator
+        try:
+            ExpressionEvaluator().compile(h_src, set(h_names))
+            print("history: compiled", h_src, "with names", h_names)
+        except Exception as ex:  # noqa
+            print("history step raised", ex)
     acc, fn = impl_accept(s)
     print("expr:", s, "| accepted by ExpressionEvaluator.compile:", acc)
     if acc:
